@@ -69,6 +69,8 @@ def check(ctx: Ctx) -> None:
     check_chordal(ctx)
     check_whitening(ctx)
     check_gmd_bookkeeping(ctx)
+    from ..idioms import check_mean_counts
+    check_mean_counts(ctx, 'C20.g', [MISC, PROJ], floor=20)
 
 
 def _mat(ctx: Ctx, it: X.MatInterp, fn, args, what: str) -> X.Val:
